@@ -1039,6 +1039,23 @@ Lemma unmarshal_canonical_v0_refuted :
   exists b m, wf_bytes b = true /\ unmarshal_v0 b = Ok m /\ marshal m <> b.
 Proof. exists [160; 18; 0; 128; 18], [PGateway; PBitswap]. vm_compute. repeat split; discriminate. Qed.
 
+(* C11-fix-6: the library's own HTTPV1() constructor built Unknown{Code: Http, Payload: nil}.
+   The value is not well-formed (its payload is not its encoding), encodes to nothing and
+   is lost on the round trip; the repaired constructor builds mk_unknown 480 []. *)
+Definition id_http : N := 480.   (* multicodec.Http 0x01e0 *)
+Lemma httpv1_v0_refuted :
+  wf_proto (PUnknown id_http []) = false
+  /\ marshal [PUnknown id_http []] = []
+  /\ (exists c, unmarshal (marshal [PUnknown id_http []]) = Err c)
+  /\ unmarshal (marshal [PBitswap; PUnknown id_http []]) = Ok [PBitswap].
+Proof. vm_compute. repeat split. eexists; reflexivity. Qed.
+
+Example httpv1_repaired :
+  wf_proto (mk_unknown id_http []) = true
+  /\ marshal [mk_unknown id_http []] = [224; 3; 0]
+  /\ unmarshal (marshal [PBitswap; mk_unknown id_http []]) = Ok [mk_unknown id_http []; PBitswap].
+Proof. vm_compute. repeat split; reflexivity. Qed.
+
 (* the repaired decoder on the same witnesses *)
 Example repaired_on_witnesses :
   unmarshal (marshal [PBitswap; PBitswap; PBitswap]) = Ok [PBitswap; PBitswap; PBitswap]
